@@ -278,6 +278,10 @@ def resolve(fn, t, depth=0):
                     (e["e"] == "assign" and isinstance(e.get("lhs"), list) and e["lhs"][:2] == ["var", t[1]])]
             if len(defs) == 1 and defs[0]["e"] == "decl" and defs[0].get("init") is not None:
                 return resolve(fn, defs[0]["init"], depth + 1)
+            decl = [d for d in defs if d["e"] == "decl"]
+            if len(decl) == 1 and (decl[0].get("type") or "").rstrip().endswith("&") and decl[0].get("init") is not None:
+                # a reference never rebinds: assignments through it do not change what it names
+                return resolve(fn, decl[0]["init"], depth + 1)
         if t[:2] == ["u", "*"] or t[:2] == ["u", "&"]:
             inner = resolve(fn, t[2], depth + 1)
             if isinstance(inner, list) and ((t[1] == "*" and inner[:2] == ["u", "&"]) or (t[1] == "&" and inner[:2] == ["u", "*"])):
